@@ -25,6 +25,7 @@ func (e gsm7Encoder) Transform(dst, src []byte, atEOF bool) (nDst, nSrc int, err
 		return
 	}
 	packSeptets(dst, septets)
+	nSrc = len(src)
 	return
 }
 
